@@ -105,6 +105,16 @@ func addCustomAnalysis(im *mapping.IndexMappingImpl, analyzers, parsers []string
 			"token_filters": []interface{}{"cstopf", "clen", "ctrunc", "cshingle"}}); err != nil {
 			return err
 		}
+		// a second definition under a name that is taken (custom, or a built-in the
+		// analyzer above has already instantiated) is refused; if it were accepted the
+		// live mapping and its JSON would disagree, which the round trip then shows
+		_ = im.AddCustomTokenFilter("ctrunc", map[string]interface{}{
+			"type": "truncate_token", "length": float64(1)})
+		if variant%2 == 1 {
+			_ = im.AnalyzerNamed("custA") // instantiate, pulls the components into the cache
+			_ = im.AddCustomCharFilter("cchar", map[string]interface{}{
+				"type": "regexp", "regexp": "o", "replace": "00"})
+		}
 	}
 	for _, p := range parsers {
 		if p != "cdate" {
@@ -145,7 +155,15 @@ func buildFM(f mFM) *mapping.FieldMapping {
 	return fm
 }
 
-func buildDM(d *mDM) *mapping.DocumentMapping {
+// sharedFMs, when non-nil, makes buildDM attach ONE *FieldMapping object at every
+// place the model has an identical field mapping (the usual Go idiom: build a
+// field mapping once, add it wherever needed). JSON has no sharing, so the
+// round-tripped mapping has separate objects: behaviour must not depend on it.
+type fmPool map[mFM]*mapping.FieldMapping
+
+func buildDM(d *mDM) *mapping.DocumentMapping { return buildDMShared(d, nil) }
+
+func buildDMShared(d *mDM, pool fmPool) *mapping.DocumentMapping {
 	dm := mapping.NewDocumentMapping()
 	dm.Enabled = d.Enabled
 	dm.Dynamic = d.Dynamic
@@ -153,10 +171,19 @@ func buildDM(d *mDM) *mapping.DocumentMapping {
 	dm.DefaultAnalyzer = d.DefAnalyzer
 	dm.StructTagKey = d.TagKey
 	for _, f := range d.Fields {
+		if pool != nil {
+			fm, ok := pool[f]
+			if !ok {
+				fm = buildFM(f)
+				pool[f] = fm
+			}
+			dm.AddFieldMapping(fm)
+			continue
+		}
 		dm.AddFieldMapping(buildFM(f))
 	}
 	for _, p := range d.Props {
-		dm.AddSubDocumentMapping(p.Name, buildDM(p.DM))
+		dm.AddSubDocumentMapping(p.Name, buildDMShared(p.DM, pool))
 	}
 	return dm
 }
@@ -168,9 +195,13 @@ func buildMapping(m *mIM, variant int) (*mapping.IndexMappingImpl, error) {
 	if err := addCustomAnalysis(im, m.CustomAnalyzers, m.CustomDateParsers, variant); err != nil {
 		return nil, err
 	}
-	im.DefaultMapping = buildDM(m.Def)
+	var pool fmPool
+	if variant%2 == 1 {
+		pool = fmPool{}
+	}
+	im.DefaultMapping = buildDMShared(m.Def, pool)
 	for _, t := range m.Types {
-		im.AddDocumentMapping(t.Name, buildDM(t.DM))
+		im.AddDocumentMapping(t.Name, buildDMShared(t.DM, pool))
 	}
 	im.TypeField = m.TypeField
 	im.DefaultType = m.DefType
